@@ -21,6 +21,13 @@ RULE = ("settings objects are drawn from the lattice of restrictions / "
         "ValueError; pairs of validated settings judged 'compatible' by an "
         "independent three-valued predicate (shared version, suite for that "
         "version by IANA name, group, signature scheme usable with the "
+        "Directed pairs: one value per list-valued dimension, signature "
+        "policy reduced to one family, EC point format pairs, external "
+        "PSKs (layouts with further keys, with HelloRetryRequest), "
+        "fallback SCSV for every pair of maxima; validate() refusing a "
+        "documented value is a violation; repeated list elements; "
+        "defaults of fresh settings objects after others were changed "
+        "in place.   "
         "server key, key sizes) must complete a handshake. "
         "distinct_nontrivial = distinct (restricted dimension set) cells + "
         "distinct out-of-domain (field, value class) cells + distinct "
